@@ -509,5 +509,67 @@ def _negated_goal(recv):
     return recv.endswith('.arg')
 
 
+def rule_t7(repo):
+    """In the library x / 0 = 0 and inverse 0 = 0, so a quotient may be replaced by anything other than
+    itself (kept as an opaque atom) only when its denominator was evaluated and found to be non-zero.
+    'Numerator and denominator have the same normal form' is not such a test (x / x = 1 is false at 0)."""
+    res = RuleResult('C05.T7', 'an evaluator simplifies a quotient or an inverse only behind a non-zero test of the evaluated denominator', floor=5)
+    seen = set()
+    for mi in trusted_macros(repo):
+        for f in closure(repo, mi.eval):
+            if id(f) in seen or not f.module.rel.startswith('data/'):
+                continue          # recognisers such as Term.is_frac_number return verdicts, not values
+            seen.add(id(f))
+            cfg = None
+            for br in walk_no_nested(f.node, include_root=False):
+                if not (isinstance(br, ast.If) and isinstance(br.test, ast.Call) and call_attr(br.test) in ('is_divides', 'is_real_inverse')
+                        and isinstance(br.test.func.value, ast.Name)):
+                    continue
+                t = br.test.func.value.id
+                cfg = cfg or cfg_of(f.node)
+
+                def nonzero(e, pol):
+                    if isinstance(e, ast.Call) and call_attr(e) == 'is_nonzero_constant':
+                        return pol
+                    cp = compare_parts(e)
+                    if not cp:
+                        return False
+                    for a, b in ((cp[1], cp[2]), (cp[2], cp[1])):
+                        if isinstance(b, ast.Constant) and b.value == 0 and isinstance(a, ast.Name):
+                            if cp[0] is ast.Eq:
+                                return not pol
+                            if cp[0] in (ast.NotEq, ast.Gt, ast.Lt):
+                                return pol
+                    return False
+                edges = cfg.establishing_edges(nonzero)
+                tn = cfg.node_for(br.test)
+                first = [b for b, l in tn.succ if l == 'true'][0] if tn is not None else None
+                rets = [r for st in br.body for r in ast.walk(st) if isinstance(r, ast.Return) and r.value is not None]
+                need(first is not None, '%s: entry of the %s branch not found in the CFG' % (f.qualname, call_attr(br.test)))
+                bad = []
+                for r in rets:
+                    opaque = any(isinstance(x, ast.Name) and x.id == t and not isinstance(_parent_attr(r.value, x), ast.Attribute)
+                                 for x in ast.walk(r.value))
+                    if opaque:
+                        continue
+                    rn = cfg.node_for(r)
+                    if rn is None or cfg.path_avoiding(rn, skip_edges=edges, start=first) is not None:
+                        bad.append(r)
+                res.add('%s :: %s :: %s-branch' % (f.module.rel, f.qualname, call_attr(br.test)[3:]), not bad,
+                        'every simplifying return is behind a non-zero test of the denominator' if not bad else
+                        '`%s` (line %d) replaces the quotient without a non-zero test of the evaluated denominator: with x / 0 = 0 in the '
+                        'library, an identity such as x / x = 1 is accepted although it is false at 0' % (src(bad[0], 60), bad[0].lineno),
+                        '%s:%d' % (f.module.rel, br.lineno))
+    return res
+
+
+def _parent_attr(root, node):
+    """the Attribute node whose value is `node` (t.arg, t.args), if any"""
+    for p in ast.walk(root):
+        if isinstance(p, ast.Attribute) and p.value is node:
+            return p
+    return None
+
+
 def rules(repo):
-    return [rule_t1(repo), rule_t2(repo), rule_t3(repo), rule_t4(repo), rule_t5(repo), rule_t6(repo)]
+    return [rule_t1(repo), rule_t2(repo), rule_t3(repo), rule_t4(repo), rule_t5(repo), rule_t6(repo), rule_t7(repo)]
